@@ -80,7 +80,8 @@ def run_case(ctx, loop, p, reply, req, witness_tag=None):
     model = (mo, mtoks[:upto]) + ((mcont, mstate) if unmod is None and mo == "ok" else ())
     if o1 != "ok" and mo == "E":
         impl, model = ("E",), ("E",)
-    if impl != model:
+    predicted = impl == model
+    if not predicted:
         ctx.disagree("SFTPFile vs model", case, repr(model), repr(impl))
     # ---- (2) spec validation PyFile vs real local files
     if ambiguous:
@@ -119,6 +120,10 @@ def run_case(ctx, loop, p, reply, req, witness_tag=None):
         sorted(sticky))
     if div[0] == "final-contents":
         detail = "final contents differ: remote %s local %s; tags %s" % (hx(c1 or b"")[:120], hx(ca or b"")[:120], sorted(sticky))
+    if not predicted:
+        # the model does not reproduce this run, so its tags explain nothing here
+        ctx.fail("unpredicted-divergence:" + div[0], case, detail + " (model disagrees with the real SFTPFile on this program)")
+        return set()
     if not sticky:
         ctx.fail("untagged-divergence:" + div[0], case, detail)
     for t in sticky:
@@ -216,9 +221,32 @@ def run(ctx):
 
 
 META = {
-    "claimed": False,
-    "reason": "under construction",
-    "level": "",
-    "note": "",
+    "claimed": True,
+    "level": ("PARTIAL. The full statement is false of today's code; the Lean model reproduces the current SFTPFile/"
+              "BufferedFile/SFTPHandle behaviour exactly and every departure from the local-file spec PyFile carries a "
+              "defect tag. Proved: refines_partial — for EVERY request-size limit, buffer size/buffering mode "
+              "(unbuffered, line, sized), file content and EVERY program of write/seek/tell/flush/truncate/close calls "
+              "on a file not opened in append mode, if no defect trigger fires along the run then each call returns "
+              "what the local file returns and the server file equals the local file (exactly once closed, up to the "
+              "unflushed write buffer before) — by a simulation relation (step_refines, rel_init for freshly opened "
+              "files, closed_contents_equal); plus one machine-checked *_witness theorem per tag (12 tags + "
+              "returns_none) exhibiting a concrete diverging program. Every run: byte-exact correspondence of the "
+              "model with a real SFTPClient/SFTPFile against a real SFTPServer over a loopback (return values, "
+              "exception kinds, final file bytes, _pos/_realpos/_rbuffer/_wbuffer; modes r r+ w w+ a a+ x wx w+x, "
+              "bufsize -1..65536, pipelined or not, MAX_REQUEST_SIZE patched down to force request splitting), "
+              "validation of the PyFile spec against real local files, and the oracle real-SFTPFile-vs-real-local-"
+              "file; a divergence is known iff the model fired a listed tag at or before it, anything else is a "
+              "VIOLATION; every witness is replayed on the real code."),
+    "note": ("NOT proved (tied by correspondence + oracle only): read/readline/readlines inside the refinement (their "
+             "stream semantics over arbitrary short reads is proved for the same BufferedFile code in C42), append-mode "
+             "files. Excluded from generation: truncate after close (server reply to an invalid handle = C30), whence "
+             "outside 0/1/2, offsets >= 2**63, prefetch/readv (C28), >100 outstanding pipelined writes (C29/C30). "
+             "Reads through a server handle that served a READ before a truncate are not modelled (CPython "
+             "BufferedRandom read-ahead inside StubSFTPServer); such runs are compared up to that point. Local "
+             "reference = consensus of unbuffered FileIO and default-buffered file objects; programs where those two "
+             "disagree (a+ after read/seek/write, append after truncate) are outside the spec. Exceptions compare as "
+             "'raises' (IOError vs ValueError/OSError classes differ by design). Trusted: Lean kernel + 3 axioms, "
+             "harness/generators, tests/_stub_sftp.py, CPython file objects. One defect fixed (fdf7955, server "
+             "SFTPHandle append-mode offset cache); 13 listed as known findings by tag."),
     "technique": "Lean 4 proof (simulation/refinement to a local-file spec) + differential correspondence + spec validation",
 }
